@@ -1,4 +1,5 @@
 import UberjobModel.Model.Engine
+import UberjobModel.Lemmas.GenFacts
 import Batteries.Data.List.Perm
 import Mathlib.Data.List.Nodup
 import Mathlib.Data.List.Count
@@ -6,6 +7,7 @@ import Mathlib.Data.List.Count
   Safety invariants of the engine model, proved inductive over `step?`.
 -/
 namespace Uberjob.Engine
+open Uberjob.Gen.Engine
 
 /-! ### list helpers -/
 
@@ -107,6 +109,7 @@ end Uberjob.Engine
 
 
 namespace Uberjob.Engine
+open Uberjob.Gen.Engine
 
 theorem mem_set_cases {α} {l : List α} {i : Nat} {a b : α} (h : b ∈ l.set i a) :
     b = a ∨ ∃ j, j ≠ i ∧ l[j]? = some b := by
@@ -648,7 +651,8 @@ theorem inv_release {g : Graph} (hg : g.WF) {cfg : Cfg} {s s' : St} {w y : Nat} 
       have hputAll : releasePut g s y = true → ∀ p ∈ g.preds y, (p, y) ∈ s.rel ++ [(x, y)] := by
         intro hput p hp
         by_cases h1 : g.predCount y = 1
-        · unfold Graph.predCount at h1
+        · clear hput
+          unfold Graph.predCount at h1
           have : g.preds y = [x] := by
             match hl : g.preds y, h1, hxp with
             | [a], _, hxa => simp at hxa; simp [hxa]
@@ -656,7 +660,8 @@ theorem inv_release {g : Graph} (hg : g.WF) {cfg : Cfg} {s s' : St} {w y : Nat} 
         · have h2 : 2 ≤ g.predCount y := by omega
           have h3 := hi.remOk y h2
           have h4 := hrem h2
-          simp [releasePut, releaseRem, h1] at hput
+          have hns : ¬ classify (g.predCount y) = Kind.single := fun hc => h1 ((classify_single_iff _).mp hc)
+          simp [releasePut, releaseRem, hns, readyCond_iff] at hput
           have hall := rel_pigeon (rel := s.rel ++ [(x, y)]) (ps := g.preds y)
             (by
               rw [List.nodup_append]
@@ -788,7 +793,8 @@ theorem inv_release {g : Graph} (hg : g.WF) {cfg : Cfg} {s s' : St} {w y : Nat} 
         · subst hzy
           have h1 : ¬ g.predCount z = 1 := by omega
           have h4 := hrem hz
-          simp [releaseRem, h1, List.countP_append]; omega
+          have hns : ¬ classify (g.predCount z) = Kind.single := fun hc => h1 ((classify_single_iff _).mp hc)
+          simp [releaseRem, hns, List.countP_append]; omega
         · have : List.countP (fun e => e.2 == z) (s.rel ++ [(x, y)]) = List.countP (fun e => e.2 == z) s.rel := by
             simp [List.countP_append]; intro h; exact absurd h.symm hzy
           rw [this]
@@ -863,7 +869,7 @@ theorem inv_init {g : Graph} (hg : g.WF) : Inv g (init g) := by
     simp only [List.countP_nil, List.count_nil, Nat.add_zero] at hy
     have hy' : 0 < List.count (Item.node y) (List.map Item.node (sources g)) := by omega
     have := List.count_pos_iff.mp hy'
-    simp [sources, Graph.predCount] at this
+    simp [sources, classify_source_iff, Graph.predCount] at this
     rw [this.2] at hp; cases hp
   · intro p y h; cases h
   · exact List.nodup_nil
